@@ -195,12 +195,17 @@ GroupThere(s) == s.child \in {"running", "exiting"} \/ s.grand   \* ("waited": t
 StopKillPath(s, i) ==
   IF s.pend # "none"
     THEN {[s EXCEPT !.hs[i].pc = "hung"]}            \* second send on the 1-slot channel nobody reads
-    ELSE LET t == [Answer(s, i, ~GroupThere(s)) EXCEPT      \* kill(-pid, SIGKILL): ESRCH when nothing of the group is left
-                             !.pend = "KILLED", !.skDone = TRUE, !.doneBy = ReqOf(s, i), !.grand = FALSE,
+    ELSE {[s EXCEPT !.pend = "KILLED", !.hs[i].pc = "kill"]}
+(* ... syscall.Kill(-pid, SIGKILL) - a separate step: the reaper may take the pending state and reap in between *)
+DoStopKill(s, i) ==
+  IF i \in 1..Len(s.hs) /\ s.hs[i].pc = "kill" /\ Ok(s)
+    THEN LET t == [Answer(s, i, ~GroupThere(s)) EXCEPT      \* kill(-pid, SIGKILL): ESRCH when nothing of the group is left
+                             !.skDone = TRUE, !.doneBy = ReqOf(s, i), !.grand = FALSE,
                              !.child = IF s.child = "running" THEN "exiting" ELSE @,
                              !.how = IF s.child = "running" THEN "sig" ELSE @]
          IN \* a child that was told to exit may still be there for the SIGKILL to end it
             IF s.child = "exiting" /\ s.how \in {"e0", "e3"} THEN {t, [t EXCEPT !.how = "sig"]} ELSE {t}
+    ELSE {}
 DoStopBody(s, i) ==
   IF IsBody(s, i, {"STOP"}) /\ s.kind = "basic"
     THEN IF ~s.cmd    \* (after a Kill forgot taskCmd the stop is a no-op: what survives is the Kill's doing)
@@ -361,7 +366,7 @@ HIdx(s) == 1..Len(s.hs)
 Succ(s) ==
   DoLaunch(s) \cup UNION {DoReq(s, r) : r \in Reqs} \cup DoRelease(s) \cup DoProc(s) \cup DoTimer(s)
   \cup DoReaperStart(s) \cup DoWaitRet(s) \cup DoReap(s) \cup DoLDial(s) \cup DoLDialTimeout(s) \cup DoLPoll(s) \cup DoLPollTimeout(s) \cup DoLWaitRet(s) \cup DoLWait(s)
-  \cup UNION {DoNoopBody(s, i) \cup DoRespond(s, i) \cup DoStartBody(s, i) \cup DoStopBody(s, i) \cup DoKillBodyBasic(s, i)
+  \cup UNION {DoNoopBody(s, i) \cup DoRespond(s, i) \cup DoStartBody(s, i) \cup DoStopBody(s, i) \cup DoStopKill(s, i) \cup DoKillBodyBasic(s, i)
               \cup DoKillSend(s, i) \cup DoTransBody(s, i) \cup DoTransCommit(s, i) \cup DoKBody(s, i) \cup DoKClose(s, i) \cup DoKTerm(s, i) \cup DoKInt(s, i)
               \cup DoKKill9(s, i) \cup DoKEnd(s, i) : i \in HIdx(s)}
 
@@ -386,6 +391,7 @@ NoopBody(i) == \E t \in DoNoopBody(S, i) : Set(t)
 Respond(i) == \E t \in DoRespond(S, i) : Set(t)
 StartBody(i) == \E t \in DoStartBody(S, i) : Set(t)
 StopBody(i) == \E t \in DoStopBody(S, i) : Set(t)
+StopKill(i) == \E t \in DoStopKill(S, i) : Set(t)
 KillBodyBasic(i) == \E t \in DoKillBodyBasic(S, i) : Set(t)
 KillSend(i) == \E t \in DoKillSend(S, i) : Set(t)
 TransBody(i) == \E t \in DoTransBody(S, i) : Set(t)
@@ -400,7 +406,7 @@ KEnd(i) == \E t \in DoKEnd(S, i) : Set(t)
 Next ==
   \/ Launch \/ (\E r \in Reqs : Req(r)) \/ Release \/ Proc \/ Timer \/ ReaperStart \/ WaitRet \/ Reap
   \/ LDial \/ LDialTimeout \/ LPoll \/ LPollTimeout \/ LWaitRet \/ LWait
-  \/ \E i \in 1..MaxReq : NoopBody(i) \/ Respond(i) \/ StartBody(i) \/ StopBody(i) \/ KillBodyBasic(i) \/ KillSend(i)
+  \/ \E i \in 1..MaxReq : NoopBody(i) \/ Respond(i) \/ StartBody(i) \/ StopBody(i) \/ StopKill(i) \/ KillBodyBasic(i) \/ KillSend(i)
                           \/ TransBody(i) \/ TransCommit(i) \/ KBody(i) \/ KClose(i) \/ KTerm(i) \/ KInt(i) \/ KKill9(i) \/ KEnd(i)
 
 Spec == Init /\ [][Next]_vars
